@@ -1,5 +1,7 @@
 #![allow(dead_code)]
 mod util;
+#[global_allocator]
+static METER: util::Meter = util::Meter;
 mod cmd_domains;
 mod cmd_transcript;
 mod cmd_vector;
